@@ -88,6 +88,7 @@ class SamplerRun:
         self.model = model
         self.consumed = []        # (call_no, batch_index, batch)
         self.submitted = []       # (call_no, batch_index, override or None)
+        self.rounds = []          # SMC round in force when each batch was consumed
         self.call_no = 0
         self.results = []
         self.errors = []
@@ -118,6 +119,7 @@ class SamplerRun:
 
         def update(batch, batch_index):
             self.consumed.append((self.call_no, batch_index, batch))
+            self.rounds.append(s.state.get('round'))
             own = mon.result_owner.get(id(batch))
             if own is None:
                 out.violate('cancelled-result-unused', 'unknown-batch-object', bi=batch_index)
